@@ -197,6 +197,83 @@ def h_sequential_vs_joint(env, d, cutoff, first, second):
         env.equal("joint%s" % (o,), seq.get(o, 0), joint.get(o, 0))
 
 
+def _passive_oracle(env, U, inp, post_modes, post_photons, modes):
+    """P(postselected photons on post_modes AND outcome on `modes`) for every outcome, from the definition:
+    sum over the occupations of the other modes of |<occ| Phi(U) |inp>|^2 (permanent by its defining sum)"""
+    d = len(inp)
+    n = int(sum(inp))
+    out = {}
+    for occ in fc.sector(d, n):
+        if any(occ[m] != p_ for m, p_ in zip(post_modes, post_photons)):
+            continue
+        amp = fc.fock_element(env, U, occ, tuple(int(x) for x in inp))
+        w = amp * env.np.conj(amp)
+        key = tuple(occ[m] for m in modes)
+        out[key] = out[key] + w if key in out else w
+    return out
+
+
+def h_passive_sequential(env, first, second):
+    """PassiveSimulator, shots=None, generic complex 3x3 transfer matrix, input |1,1,0>: through the real Simulator pipeline
+    (active-mode remapping) and the real passive measurement step, (a) a joint partial measurement of (first, second) has the
+    exact joint marginal probabilities as weights, (b) measuring `first` and then `second` is not refused and (c) gives the
+    same joint weights.  The marginal-probability kernel (binomial moments, numba) is a contract stub: its defining sum."""
+    from piquasso._simulators.passive import state as pstate, simulation_steps as passteps
+    from piquasso._simulators.passive.state import PassiveState
+    d, inp = 3, (1, 1, 0)
+    conn = cm.connector(env)
+    cfg0 = cm.config(env)
+    # a physical (unitary by construction) transfer matrix: three real beamsplitter blocks with symbolic angles
+    U = None
+    for k, (modes, phi) in enumerate((((0, 1), True), ((1, 2), False), ((0, 1), False))):
+        blk = pq.Beamsplitter(env.param("t%d" % k), env.param("f%d" % k) if phi else 0.0)._get_passive_block(conn, cfg0)
+        E = cm.embed(env, blk, modes, d)
+        U = E if U is None else E @ U
+
+    def mk():
+        st = PassiveState(d=d, connector=conn, config=pq.Config(validate=False, cutoff=3))
+        st.interferometer = U.copy()
+        st._occupation_numbers = [numpy.array(inp)]
+        st._coefficients = [1.0]
+        return st
+    real = pstate.get_marginal_fock_probabilities
+    if env.mode == "sym":
+        def stub(input_photons, interferometer, postselected_modes, postselected_photons, marginal_modes):
+            return _passive_oracle(env, interferometer, input_photons, postselected_modes, postselected_photons, marginal_modes)
+        pstate.get_marginal_fock_probabilities = stub
+        env.stubs.append("passive.marginal.get_marginal_fock_probabilities -> its defining sum over permanents (validated against the kernel at random points)")
+    env.functions += [core.fn_ref(passteps.particle_number_measurement), core.fn_ref(PassiveState._set_postselection), core.fn_ref(PassiveState.get_marginal_fock_probabilities),
+                      core.fn_ref(_sim.Simulator._do_execute_instructions)]
+    try:
+        sim = pq.PassiveSimulator(d=d, config=pq.Config(validate=False, cutoff=3), connector=conn)
+        want = _passive_oracle(env, U, inp, (), (), (first, second))
+        r = sim.execute_instructions([pq.ParticleNumberMeasurement().on_modes(first, second)], initial_state=mk(), shots=None)
+        joint = {tuple(int(x) for x in b.outcome): b.frequency for b in r.branches}
+        for o in sorted(set(want) | set(joint)):
+            env.equal("joint measurement weight%s" % (o,), joint.get(o, 0), want.get(o, 0))
+        try:
+            r2 = sim.execute_instructions([pq.ParticleNumberMeasurement().on_modes(first), pq.ParticleNumberMeasurement().on_modes(second)], initial_state=mk(), shots=None)
+        except pq.api.exceptions.PiquassoException as e:
+            env.holds("sequential measurement accepted (%s)" % str(e)[:60], False)
+            return
+        env.holds("sequential measurement accepted", True)
+        seq = {}
+        for b in r2.branches:
+            o = tuple(int(x) for x in b.outcome)
+            seq[o] = seq[o] + b.frequency if o in seq else b.frequency
+        # independent of any per-branch normalisation: within one first outcome the second outcomes have the right ratios,
+        # i.e. the second measurement addressed the physical mode the user named
+        keys = sorted(set(want) | set(seq))
+        for i_, o in enumerate(keys):
+            for o_ in keys[i_ + 1:]:
+                if o[0] == o_[0]:
+                    env.equal("second measurement on the named mode: ratio %s : %s" % (o, o_), seq.get(o, 0) * want.get(o_, 0), seq.get(o_, 0) * want.get(o, 0))
+        for o in keys:
+            env.equal("sequential weight%s" % (o,), seq.get(o, 0), want.get(o, 0))
+    finally:
+        pstate.get_marginal_fock_probabilities = real
+
+
 # ----------------------------------------------------------------------------- finite shots by solver-guided path enumeration
 class PInt:
     """a solver-chosen integer: comparisons are decided per path by the explorer"""
@@ -251,7 +328,153 @@ def _sample_acct(rng, n, m1, m2):
 
 h_accounting.sampler = _sample_acct
 
-HARNESSES = {"exact_weights": h_exact_weights, "sequential_vs_joint": h_sequential_vs_joint, "accounting": h_accounting}
+def h_shot_arithmetic(env, nmax):
+    """Shot arithmetic for ALL counts up to nmax (E-NS): the real Simulator._apply_instruction_to_branches, Result.samples,
+    Result.get_counts and _get_imperfect_branch_frequencies are run from their own bytecode on symbolic counts; a branch that
+    holds k of the N shots must be given exactly k shots by the next measurement (two levels deep), contribute exactly k
+    samples / counts, and hand multiplicity k to the imperfect-detector resampling - whatever mixture of Fraction, float and
+    int arithmetic the code uses (doubles are IEEE-754 bit-vectors for the solver)."""
+    from fractions import Fraction
+    import z3
+    from .. import numsym as ns
+    import piquasso.api.result as resmod
+    import piquasso._simulators.simulation_steps as gsteps
+    from piquasso.api.branch import Branch
+    P = _plain_ns()
+    sym = env.mode == "sym"
+    N = env.bvar("N", 1, nmax)
+    c = [env.bvar("c%d" % i, 1, nmax) for i in range(6)]
+    if sym:
+        env.assume("c0+c1==N", xa.SymBool(c[0] + c[1] == N))
+        env.assume("c2+c3==c0", xa.SymBool(c[2] + c[3] == c[0]))
+        env.assume("c4+c5==c1", xa.SymBool(c[4] + c[5] == c[1]))
+        Nn = ns.SInt.atom("N")
+        cn = [ns.SInt.atom("c%d" % i) for i in range(6)]
+        frac = ns.SRat
+    else:
+        env.num_assumptions.append(("partitions", c[0] + c[1] == N and c[2] + c[3] == c[0] and c[4] + c[5] == c[1]))
+        if not env.num_assumptions[-1][1]:
+            return
+        Nn, cn, frac = N, c, Fraction
+    env.functions += [core.fn_ref(_sim.Simulator._apply_instruction_to_branches), core.fn_ref(_res.Result.samples), core.fn_ref(_res.Result.get_counts),
+                      core.fn_ref(gsteps._get_imperfect_branch_frequencies)]
+    del ns.SIDE[:]
+    got = []          # (what, value handed over by the real code, the branch's count)
+
+    def same(name, val, want):
+        if isinstance(val, ns.SInt):
+            env.holds(name, True if val.same(want) else xa.SymBool(val.bv == want.bv))
+        else:
+            env.holds(name, val == want)
+
+    class St(P["DummyState"]):
+        pass
+
+    def mk_state(count):
+        st = St(3, P["NumpyConnector"](), None)
+        st.count = count
+        return st
+
+    pending = {"next": [(cn[0], cn[1]), (cn[2], cn[3]), (cn[4], cn[5])]}
+
+    def measure_step(state, instruction, shots):
+        got.append(("budget of the next measurement", shots, state.count))
+        a, b = pending["next"].pop(0)
+        return [Branch(state=mk_state(a), outcome=(0,), frequency=frac(a, shots)), Branch(state=mk_state(b), outcome=(1,), frequency=frac(b, shots))]
+
+    def gate_step(state, instruction, shots):
+        got.append(("budget of a later gate", shots, state.count))
+        return [Branch(state=state)]
+
+    sim = P["Sim"](d=3)
+    sim._get_simulation_step = lambda instruction: measure_step if isinstance(instruction, P["M"]) else gate_step
+    apply = ns.rebind(_sim.Simulator._apply_instruction_to_branches)
+    P["_arm"](-1, -1)
+    branches = [Branch(state=mk_state(Nn), frequency=Fraction(1))]
+    branches = apply(sim, branches, P["M"]().on_modes(0), Nn)
+    branches = apply(sim, branches, P["M"]().on_modes(1), Nn)
+    branches = apply(sim, branches, P["G1"](0.1).on_modes(2), Nn)
+    env.holds("four leaves", len(branches) == 4)
+    for j, (what, val, want) in enumerate(got):
+        same("%s == the branch's own count [call %d]" % (what, j), val, want)
+    leaves = cn[2:6]
+    parents = [cn[0], cn[0], cn[1], cn[1]]
+    for j, b in enumerate(branches[:4]):
+        f = b.frequency
+        if isinstance(f, ns.SRat):
+            ok = f.num.same(leaves[j]) and f.den.same(Nn)
+            env.holds("leaf %d frequency == k/N" % j, True if ok else xa.SymBool(f.num.bv * Nn.bv == leaves[j].bv * f.den.bv))
+        else:
+            env.holds("leaf %d frequency == k/N" % j, f == Fraction(leaves[j], Nn))
+    # the consumers of the final branches are driven with the frequencies the contract above guarantees (k/N built the way the
+    # simulator builds them: the product of the two conditional fractions), so that each site is decided on its own
+    branches = [Branch(state=b.state, outcome=b.outcome, frequency=frac(leaves[j], parents[j]) * frac(parents[j], Nn)) for j, b in enumerate(branches[:4])]
+
+    class R(_res.Result):
+        samples = property(ns.rebind(_res.Result.samples.fget, random=P["_types"].SimpleNamespace(Random=P["_AnyPermutation"])))
+        get_counts = ns.rebind(_res.Result.get_counts)
+    res = R(branches=branches, config=pq.Config(), shots=Nn)
+    samples = res.samples
+    if sym:
+        env.holds("Result.samples lists every branch", [tuple(x.item) for x in samples] == [tuple(b.outcome) for b in branches])
+        for j, x in enumerate(samples[:4]):
+            same("Result.samples: branch %d contributes its count" % j, x.count, leaves[j])
+    else:
+        env.holds("Result.samples lists every branch", set(samples) == set(tuple(b.outcome) for b in branches))
+        for j, b in enumerate(branches):
+            env.holds("Result.samples: branch %d contributes its count" % j, samples.count(tuple(b.outcome)) == leaves[j])
+    gc = res.get_counts()
+    for j, b in enumerate(branches):
+        same("Result.get_counts: branch %d" % j, gc[b.outcome], leaves[j])
+    rec = []
+
+    def sample_stub(actual_outcome, multiplicity, detector_efficiency_matrix, rng):
+        rec.append(multiplicity)
+        return {actual_outcome: multiplicity}
+    imp = ns.rebind(gsteps._get_imperfect_branch_frequencies, _sample_detected_outcomes=sample_stub, Fraction=lambda a, b=1: frac(a, b))
+    for j, b in enumerate(branches):
+        out = imp(branch=b, shots=Nn, detector_efficiency_matrix=None, rng=None)
+        same("imperfect detection: multiplicity of branch %d" % j, rec[-1], leaves[j])
+    for label, cond in ns.SIDE:
+        env.holds(label, xa.SymBool(cond))
+    del ns.SIDE[:]
+
+
+def h_passive_mode_map(env, d):
+    """successive partial measurements on the sampling simulator: map_to_original_modes sends the j-th REMAINING mode to its
+    original label for every solver-chosen ORDERED list of already measured modes (any order of measurement) and every
+    compact index - the bookkeeping that makes a later measurement address the physical mode the user named."""
+    from piquasso._simulators.passive import sampling as psamp
+    k = env.pick_int("measured", 0, 3)
+    post = []
+    for i in range(k):
+        m = env.pick_int("p%d" % i, 0, d - 1)
+        if m in post:
+            if env.mode == "sym":
+                raise xa.PathAbort("distinct")
+            env.num_assumptions.append(("distinct", False))
+            return
+        post.append(m)
+    remaining = [m for m in range(d) if m not in post]
+    j = env.pick_int("j", 0, len(remaining) - 1)
+    j2 = env.pick_int("j2", 0, len(remaining) - 1)
+    env.functions.append(core.fn_ref(psamp.map_to_original_modes))
+    got = psamp.map_to_original_modes((j, j2), tuple(post))
+    env.holds("compact indices map to the original labels of the remaining modes", tuple(int(x) for x in got) == (remaining[j], remaining[j2]))
+
+
+def _sample_shots(rng, nmax):
+    n = rng.randint(2, nmax)
+    c0 = rng.randint(1, n - 1) if n > 2 else 1
+    c1 = n - c0
+    c2 = rng.randint(1, max(1, c0 - 1))
+    c4 = rng.randint(1, max(1, c1 - 1))
+    return {"N": n, "c0": c0, "c1": c1, "c2": c2, "c3": c0 - c2, "c4": c4, "c5": c1 - c4}
+
+
+h_shot_arithmetic.sampler = _sample_shots
+
+HARNESSES = {"passive_sequential": h_passive_sequential, "passive_mode_map": h_passive_mode_map, "shot_arithmetic": h_shot_arithmetic, "exact_weights": h_exact_weights, "sequential_vs_joint": h_sequential_vs_joint, "accounting": h_accounting}
 
 
 def instances(tier):
@@ -263,6 +486,10 @@ def instances(tier):
     seqs = [(2, 2, (0,), (1,)), (3, 2, (2,), (0,))] if tier == "quick" else [(2, 2, (0,), (1,)), (2, 3, (1,), (0,)), (3, 2, (2,), (0,)), (3, 2, (1,), (2, 0)), (3, 3, (0,), (2,))]
     for d, c, f, s_ in seqs:
         out.append(("sequential_vs_joint", {"d": d, "cutoff": c, "first": list(f), "second": list(s_)}))
+    for f_, s_ in ((2, 0), (0, 2), (0, 1)) if tier == "quick" else ((2, 0), (0, 2), (0, 1), (1, 2), (1, 0), (2, 1)):
+        out.append(("passive_sequential", {"first": f_, "second": s_}))
+    out.append(("passive_mode_map", {"d": 5 if tier == "quick" else 7}))
+    out.append(("shot_arithmetic", {"nmax": 4096 if tier == "quick" else 1 << 20}))
     for n in range(1, 6 if tier == "quick" else 9):
         for (m1, m2) in ((2, 0),) if tier == "quick" else ((0, 1), (2, 0), (1, 2)):
             out.append(("accounting", {"n": n, "m1": m1, "m2": m2}))
